@@ -858,6 +858,31 @@ Proof.
   pose proof (save_paths_nonempty (x :: r)) as Hne. rewrite Forall_forall in Hne. apply (Hne _ Hin).
 Qed.
 
+(* the round trip through dataset NAMES: on well-formed dictionaries it is the round trip through paths *)
+Theorem load_named_save_named : forall kvs, wf (VDict kvs) = true ->
+  VDict (load_named (save_named kvs)) = canon (VDict kvs).
+Proof.
+  intros kvs Hwf. unfold load_named, save_named. rewrite map_map. cbn [fst snd].
+  replace (map (fun x => (split (join (fst x)), snd x)) (save kvs)) with (save kvs).
+  - now apply load_save.
+  - pose proof (save_names_split kvs Hwf) as H.
+    assert (G : forall l, (forall p s, In (p, s) l -> split (join p) = p) ->
+                          l = map (fun x : list string * stored => (split (join (fst x)), snd x)) l).
+    { induction l as [|[p0 s0] l IH]; intros Hl; [reflexivity|]. cbn [map fst snd].
+      rewrite (Hl p0 s0 (or_introl eq_refl)). f_equal. apply IH. intros p1 s1 Hin. apply (Hl p1 s1). now right. }
+    apply G. exact H.
+Qed.
+
+(* ... and the guard is needed: a key that contains the separator is saved without complaint and comes back as a nested
+   dictionary (finding F36: a parameter called "x.y"); distinct, non-empty keys otherwise *)
+Theorem named_roundtrip_dotted_key_refuted :
+  exists kvs, nodup_keys (map fst kvs) = true /\ forallb (fun k => negb (String.eqb k "")) (map fst kvs) = true
+              /\ VDict (load_named (save_named kvs)) <> canon (VDict kvs).
+Proof.
+  exists [("x.y"%string, VInt 1); ("q"%string, VInt 2)]. split; [reflexivity|]. split; [reflexivity|].
+  vm_compute. discriminate.
+Qed.
+
 (* ------------------------------------------------------------------------------------------ *)
 (* GOAL 4: canon is idempotent                                                                  *)
 
